@@ -5,7 +5,7 @@ from . import _seq, _unbuf
 ID = "C04"
 ENGINE = "seqsim"
 LEVEL = "exploration"
-RUNS = {"quick": 24000, "thorough": 400000}
+RUNS = {"quick": 100000, "thorough": 400000}
 CHUNK = 250
 WorldClass = _unbuf.StaleWorld
 RULE = ("seeded sequential histories over 2-3 root objects bound to one unbuffered resource plus retained nested-child "
